@@ -632,6 +632,9 @@ class Interp:
     # ------------------------------------------------------------------------------ top level
     def bind_params(self, fs, fnode=None):
         env = {}
+        if fs.options.get("cls"):
+            # a classmethod verified for one receiver class: `cls` is that class
+            env["cls"] = ClassObj(fs.options["cls"])
         for name, so, dflt in fs.params:
             if so is None:
                 raise OutOfSubset(f"{fs.name}: parameter {name} has no sort")
@@ -1031,7 +1034,20 @@ class Interp:
 
     def st_Try(self, s):
         if s.finalbody:
-            raise OutOfSubset("try/finally")
+            # try ... finally: the final block runs on every way out of the protected part (normal end, return, break, continue,
+            # exception), then that way out is resumed; an exit of the final block itself (return / raise) replaces it
+            inner = ast.Try(body=s.body, handlers=s.handlers, orelse=s.orelse, finalbody=[])
+            ast.copy_location(inner, s)
+            try:
+                if s.handlers or s.orelse:
+                    self.st_Try(inner)
+                else:
+                    self.exec_block(s.body)
+            except (ReturnSig, PyRaise, BreakSig, ContinueSig):
+                self.exec_block(s.finalbody)
+                raise
+            self.exec_block(s.finalbody)
+            return
         if True:
             try:
                 self.exec_block(s.body)
